@@ -670,391 +670,399 @@ def run(repo, chk):
     g2 = sp.Rational("9.81") * 2
 
     # ---------------------------------------------------------------- R-C08-1 law
-    fn, paths, ex = run_builder_unrolled(repo, CON, "leak_constraint.build")
-    chk.fn(fn)
-    got_law = False
-    for p in paths:
-        st = p.stores("m.leak_con[")
-        if p.st.raised:
-            continue
-        models = prop_models(dict(p.conds))
-        if not models:
-            continue
-        # may the leak be active on a connected node on this path?  (propositional reading of the tests: nesting, De Morgan, `== False` agree)
-        ls_atoms = sorted({k for m_ in models for k in m_ if re.search(r"\.leak_status$", k)})
-        iso_atoms = sorted({k for m_ in models for k in m_ if re.search(r"\._is_isolated$", k)})
-        can_leak = [m_ for m_ in models if all(m_[k] for k in ls_atoms) and not any(m_[k] for k in iso_atoms)]
-        if not st:
-            chk.expect(bool(ls_atoms) and bool(iso_atoms) and not can_leak, "R-C08-1", "no leak row unless the leak is active and the node connected", loc(fn), found=p.label)
-            continue
-        guard_ok = bool(ls_atoms) and bool(iso_atoms) and len(can_leak) == len(models)
-        chk.expect(guard_ok, "R-C08-1", "leak row exists only while leak_status is set and the node is not isolated", loc(fn), found=p.label)
-        v = st[-1][1]
-        if not (isinstance(v, Constraint) and isinstance(v.expr, CondExpr) and len(v.expr.branches) == 2):
-            chk.bad("R-C08-1", "leak_constraint has three branches", loc(fn), found=str(v)[:100])
-            continue
-        brs = list(v.expr.branches) + [(None, v.expr.final)]
-        a, b, c, d = (cs("leak_poly_coeffs_" + k) for k in "abcd")
-        refs = [slope * P, a * P ** 3 + b * P ** 2 + c * P + d, Cd * A * sp.sqrt(g2 * P)]
-        for i, (gd, e) in enumerate(brs):
-            R, info = canon(ex.S(e))
-            R = R.xreplace(ELEV_SUB)
-            isj = [v_ for t_, v_ in p.conds if t_.startswith("isinstance(") and "Junction" in t_]
-            if isj:
-                want_h = "head" if isj[0] else "source_head"
-                for nm_, i_ in info.get("h", []):
-                    chk.expect(i_.get("dict") == want_h, "R-C08-1", "leak row reads the %s's head from m.%s" % ("junction" if isj[0] else "tank", want_h), loc(fn), found=nm_)
-            tagj = "" if not isj else (" [junction]" if isj[0] else " [tank]")
-            chk.expect(is_zero(R - (leak - refs[i])), "R-C08-1", "leak branch %d residual is  leak - %s%s" % (i, ["s*p", "cubic(p)", "Cd*A*sqrt(2*9.81*p)"][i], tagj), loc(fn),
-                       "orifice law with p = head - elevation", expected=str(leak - refs[i]), found=str(R))
-        gref = [P, P - delta]
-        for i, (gd, e) in enumerate(brs[:2]):
-            # one-sided inequality in the normal form  g <= 0  (body <= ub  or  lb <= body)
-            g_ = None
-            if isinstance(gd, Ineq) and gd.ub is not None and gd.lb is None:
-                g_ = canon(gd.body)[0] - canon(ex.S(gd.ub))[0]
-            elif isinstance(gd, Ineq) and gd.lb is not None and gd.ub is None:
-                g_ = canon(ex.S(gd.lb))[0] - canon(gd.body)[0]
-            okg = g_ is not None and is_zero(g_.xreplace(ELEV_SUB) - gref[i])
-            chk.expect(bool(okg), "R-C08-1", "leak branch %d guard is %s <= 0%s" % (i, gref[i], tagj), loc(fn), found=str(gd))
-        got_law = True
-    chk.expect(got_law, "R-C08-1", "leak law located", loc(fn))
-    B.check_updaters(chk, "R-C08-3", fn, "leak_constraint", paths, {"leak_status", "_is_isolated"}, loc(fn))
-    for bn in ("mass_balance_constraint", "pdd_mass_balance_constraint"):
-        f_, p_, e_ = B.run_builder(repo, CON, bn + ".build")
-        B.check_updaters(chk, "R-C08-3", f_, bn, p_, {"leak_status"}, loc(f_))
-        # the balance row of a node, by case (branch tests and conditional expressions alike): the leak-rate variable of THAT node is a term
-        # of the row exactly while the leak is active
-        n_active, missing, stale = 0, [], []
-        for q_ in p_:
-            if q_.st.raised:
+    with chk.part("R-C08-1 law"):
+        fn, paths, ex = run_builder_unrolled(repo, CON, "leak_constraint.build")
+        chk.fn(fn)
+        got_law = False
+        for p in paths:
+            st = p.stores("m.leak_con[")
+            if p.st.raised:
                 continue
-            for t_, v_, ln_ in q_.stores("m."):
-                mk = re.match(r"^m\.\w+\[(.+)\]$", t_)
-                if not (mk and isinstance(v_, Constraint)) or isinstance(v_.expr, CondExpr):
-                    continue
-                want_sym = "m.leak_rate[%s]" % mk.group(1)
-                for c2, leaf in value_cases(e_.S(v_.expr), dict(q_.conds), raw=True):
-                    models = prop_models(c2)
-                    if not models:
-                        continue
-                    ls_atoms = sorted({k for m_ in models for k in m_ if re.search(r"\.leak_status$", k)})
-                    states = {all(m_[k] for k in ls_atoms) for m_ in models} if ls_atoms else {True, False}
-                    present = any(s_.name == want_sym for s_ in leaf.free_symbols)
-                    if True in states:
-                        n_active += 1
-                        if not present:
-                            missing.append(sorted(c2.items()))
-                    if False in states and present:
-                        stale.append(sorted(c2.items()))
-        chk.expect(n_active > 0 and not missing, "R-C08-3", "%s contains the leak-rate term while the leak is active" % bn, loc(f_), found=missing[:2] or "no balance row found")
-        chk.expect(not stale, "R-C08-3", "%s has no leak-rate term while the leak is inactive" % bn, loc(f_),
-                   "without its leak_constraint row (built only for an active leak) the leak-rate variable is free; it must not enter the balance", found=stale[:2])
-    consts = B.constants(repo)
-    dl, sl = consts.get("leak_delta"), consts.get("leak_slope")
-    chk.expect(dl is not None and dl[0] == sp.Rational(1, 10000), "R-C08-1", "leak smoothing band is 0.1 mm of pressure head", loc(B.CONSTANTS), expected="1e-4", found=str(dl[0]) if dl else None)
-    chk.expect(sl is not None and 0 < sl[0] < sp.Rational(1, 1000), "R-C08-1", "leak_slope is a small positive constant", loc(B.CONSTANTS), found=str(sl))
-    # breakpoint agreement
-    rec = []
-    pfn, pp, pex = run_builder_unrolled(repo, PAR, "leak_poly_coeffs_param.build", test_hook=both_entry_hook, call_hook=spline_hook(rec))
-    chk.fn(pfn)
-    if not rec:
-        raise ExtractError("leak_poly_coeffs_param: no cubic_spline call")
-    sub = {cs("leak_discharge_coeff"): Cd}
-    q = sp.Symbol("qq", positive=True)
-    orif = Cd * A * sp.sqrt(g2 * q)
-    for r_ in rec:
-        x1, x2, f1, f2, df1, df2 = [canon(pex.S(v))[0].xreplace(sub) for v in r_]
-        for nm, got, want in (("x1 = 0", x1, 0), ("x2 = delta", x2, delta), ("f1 = 0", f1, 0), ("df1 = leak_slope", df1, slope),
-                              ("f2 = Cd*A*sqrt(2g*delta)", f2, orif.subs(q, delta)), ("df2 = d/dp Cd*A*sqrt(2g p) at delta", df2, sp.diff(orif, q).subs(q, delta))):
-            chk.expect(is_zero(got - want), "R-C08-1", "leak spline data %s" % nm, loc(pfn), "the smoothing cubic must join the neighbouring branches with value and slope",
-                       expected=str(want), found=str(got))
-    # every way of writing the four coefficient entries (new Param or .value of the existing one), on every path: entry k gets coefficient k
-    n_paths = 0
-    for p_ in pp:
-        if p_.st.raised:
-            continue
-        got = entry_values(p_, r"leak_poly_coeffs_([abcd])")
-        if not got:
-            continue
-        n_paths += 1
-        keys = {key for (_, key, _, _) in got}
-        for k in "abcd":
-            vals = [(val, mode) for (k_, key, val, mode) in got if k_ == k]
-            ok_ = bool(vals) and len(keys) == 1 and all(isinstance(val, Opaque) and re.match(r"^spline\d+\.%s$" % k, val.text) for val, _ in vals)
-            chk.expect(ok_, "R-C08-1", "m.leak_poly_coeffs_%s[<node>] receives spline coefficient %s (%s)" % (k, k, "/".join(sorted({m_ for _, m_ in vals})) or "entry"), loc(pfn),
-                       found=[str(v_) for v_, _ in vals] or "not written; keys %s" % sorted(keys))
-    if not n_paths:
-        raise ExtractError("leak_poly_coeffs_param: no path writes the coefficient entries")
-    B.check_updaters(chk, "R-C08-3", pfn, "leak_poly_coeffs_param", pp, {"leak_discharge_coeff", "leak_area"}, loc(pfn))
-    for pname, attr in (("leak_coeff_param", "leak_discharge_coeff"), ("leak_area_param", "leak_area")):
-        f2_, pths, e2 = B.run_builder(repo, PAR, pname + ".build", test_hook=both_entry_hook)
-        dname = pname[:-len("_param")]
-        seen_ = set()
-        for p_ in pths:
-            if p_.st.raised:
-                continue
-            for (_, key, val, mode) in entry_values(p_, "(%s)" % dname):
-                txt = val.text if isinstance(val, Opaque) else str(val)
-                mk = re.match(r"^wn\.get_node\((.+)\)\.%s$" % attr, txt)
-                ok_ = isinstance(val, Opaque) and txt.endswith("." + attr) and (mk is None or mk.group(1) == key)
-                seen_.add(mode)
-                chk.expect(ok_, "R-C08-3", "%s carries node.%s (%s)" % (pname, attr, mode), loc(f2_), found=txt)
-        chk.expect("created" in seen_, "R-C08-3", "%s carries node.%s" % (pname, attr), loc(f2_), found=sorted(seen_))
-        B.check_updaters(chk, "R-C08-3", f2_, pname, pths, {attr}, loc(f2_))
-    chk.floor("R-C08-1", 3 + 2 + 2 + 6 + 4)
-
-    # ---------------------------------------------------------------- R-C08-2 index domains
-    defs, uses = index_domains(repo)
-    if not any(qual == "leak_constraint.build" for _, qual, _, _, _, _ in uses):
-        raise ExtractError("leak_constraint.build: index loop / default index set not understood (no model dictionary subscripted by the loop variable)")
-    n_pairs = 0
-    seen_pairs = set()
-    for rel, qual, fn_, dname, kinds, node in uses:
-        if dname not in defs:
-            continue
-        jg = junction_guarded(node, fn_)
-        if jg == "junction":
-            kinds = kinds & {"junction"}
-        elif jg == "other":
-            kinds = kinds - {"junction"}
-        key = (qual, dname, jg)
-        if key in seen_pairs:
-            continue
-        seen_pairs.add(key)
-        n_pairs += 1
-        missing = kinds - defs[dname]
-        chk.expect(not missing, "R-C08-2", "%s subscripts m.%s with its index variable only for element kinds m.%s is built for" % (qual, dname, dname), loc(rel, node),
-                   "a model dictionary looked up with a name it was never built for raises KeyError inside the simulation (a leak on a tank needs tank entries)",
-                   expected="m.%s covers %s" % (dname, sorted(kinds)), found="m.%s is built for %s only" % (dname, sorted(defs[dname])))
-    chk.sample({"rule": "R-C08-2", "dict_domains": {k: sorted(v) for k, v in sorted(defs.items())}})
-    chk.floor("R-C08-2", 30)
-
-    # ---------------------------------------------------------------- R-C08-4 window / R-C08-5 inverse pair
-    tcf = repo.func(CTRL, "Control._time_control")
-    cai_ = repo.func(CTRL, "ControlAction.__init__")
-    addf = repo.func(MODEL, "WaterNetworkModel.add_control")
-    chk.fn(tcf, addf)
-    flags = set()
-    for cname in ("Junction", "Tank"):
-        af = repo.func(ELEM, "%s.add_leak" % cname)
-        rf = repo.func(ELEM, "%s.remove_leak" % cname)
-        chk.fn(af, rf)
-        wanted = (("start_time", True, "_leak_start_control_name"), ("end_time", False, "_leak_end_control_name"))
-        n_full = 0
-        seen4 = set()
-        for o in UnrollExec().run(af):
-            if o.raised:
-                continue
-            models = prop_models(dict(o.conds))
+            models = prop_models(dict(p.conds))
             if not models:
                 continue
-            # controls registered on this path, keyed by the name they are registered under (order and temporaries do not matter)
-            regs, dup = {}, []
-            for e in call_events(o, "add_control"):
-                ab = bind_call(addf, e)
-                nm = ab.get("name")
-                nm = nm.text if isinstance(nm, Opaque) else repr(nm)
-                if nm in regs:
-                    dup.append(nm)
-                te = event_of(o, ab.get("control_object"))
-                tb = bind_call(tcf, te) if te is not None and te[2][0].split(".")[-1] == "_time_control" else {}
-                ae = event_of(o, tb.get("control_action"))
-                cb = bind_call(cai_, ae) if ae is not None and ae[2][0].split(".")[-1] == "ControlAction" else {}
-                regs[nm] = (tb, cb, te[1] if te is not None else ab.get("control_object"))
-            given = {when: prop_forced("%s is None" % when, models) for when, _, _ in wanted}
-            # a control exists exactly when its time is given
-            for when, val, cn in wanted:
-                if given[when] is None:
+            # may the leak be active on a connected node on this path?  (propositional reading of the tests: nesting, De Morgan, `== False` agree)
+            ls_atoms = sorted({k for m_ in models for k in m_ if re.search(r"\.leak_status$", k)})
+            iso_atoms = sorted({k for m_ in models for k in m_ if re.search(r"\._is_isolated$", k)})
+            can_leak = [m_ for m_ in models if all(m_[k] for k in ls_atoms) and not any(m_[k] for k in iso_atoms)]
+            if not st:
+                chk.expect(bool(ls_atoms) and bool(iso_atoms) and not can_leak, "R-C08-1", "no leak row unless the leak is active and the node connected", loc(fn), found=p.label)
+                continue
+            guard_ok = bool(ls_atoms) and bool(iso_atoms) and len(can_leak) == len(models)
+            chk.expect(guard_ok, "R-C08-1", "leak row exists only while leak_status is set and the node is not isolated", loc(fn), found=p.label)
+            v = st[-1][1]
+            if not (isinstance(v, Constraint) and isinstance(v.expr, CondExpr) and len(v.expr.branches) == 2):
+                chk.bad("R-C08-1", "leak_constraint has three branches", loc(fn), found=str(v)[:100])
+                continue
+            brs = list(v.expr.branches) + [(None, v.expr.final)]
+            a, b, c, d = (cs("leak_poly_coeffs_" + k) for k in "abcd")
+            refs = [slope * P, a * P ** 3 + b * P ** 2 + c * P + d, Cd * A * sp.sqrt(g2 * P)]
+            for i, (gd, e) in enumerate(brs):
+                R, info = canon(ex.S(e))
+                R = R.xreplace(ELEV_SUB)
+                isj = [v_ for t_, v_ in p.conds if t_.startswith("isinstance(") and "Junction" in t_]
+                if isj:
+                    want_h = "head" if isj[0] else "source_head"
+                    for nm_, i_ in info.get("h", []):
+                        chk.expect(i_.get("dict") == want_h, "R-C08-1", "leak row reads the %s's head from m.%s" % ("junction" if isj[0] else "tank", want_h), loc(fn), found=nm_)
+                tagj = "" if not isj else (" [junction]" if isj[0] else " [tank]")
+                chk.expect(is_zero(R - (leak - refs[i])), "R-C08-1", "leak branch %d residual is  leak - %s%s" % (i, ["s*p", "cubic(p)", "Cd*A*sqrt(2*9.81*p)"][i], tagj), loc(fn),
+                           "orifice law with p = head - elevation", expected=str(leak - refs[i]), found=str(R))
+            gref = [P, P - delta]
+            for i, (gd, e) in enumerate(brs[:2]):
+                # one-sided inequality in the normal form  g <= 0  (body <= ub  or  lb <= body)
+                g_ = None
+                if isinstance(gd, Ineq) and gd.ub is not None and gd.lb is None:
+                    g_ = canon(gd.body)[0] - canon(ex.S(gd.ub))[0]
+                elif isinstance(gd, Ineq) and gd.lb is not None and gd.ub is None:
+                    g_ = canon(ex.S(gd.lb))[0] - canon(gd.body)[0]
+                okg = g_ is not None and is_zero(g_.xreplace(ELEV_SUB) - gref[i])
+                chk.expect(bool(okg), "R-C08-1", "leak branch %d guard is %s <= 0%s" % (i, gref[i], tagj), loc(fn), found=str(gd))
+            got_law = True
+        chk.expect(got_law, "R-C08-1", "leak law located", loc(fn))
+        B.check_updaters(chk, "R-C08-3", fn, "leak_constraint", paths, {"leak_status", "_is_isolated"}, loc(fn))
+        for bn in ("mass_balance_constraint", "pdd_mass_balance_constraint"):
+            f_, p_, e_ = B.run_builder(repo, CON, bn + ".build")
+            B.check_updaters(chk, "R-C08-3", f_, bn, p_, {"leak_status"}, loc(f_))
+            # the balance row of a node, by case (branch tests and conditional expressions alike): the leak-rate variable of THAT node is a term
+            # of the row exactly while the leak is active
+            n_active, missing, stale = 0, [], []
+            for q_ in p_:
+                if q_.st.raised:
                     continue
-                key = (when, given[when], ("self." + cn) in regs)
-                if key in seen4:
+                for t_, v_, ln_ in q_.stores("m."):
+                    mk = re.match(r"^m\.\w+\[(.+)\]$", t_)
+                    if not (mk and isinstance(v_, Constraint)) or isinstance(v_.expr, CondExpr):
+                        continue
+                    want_sym = "m.leak_rate[%s]" % mk.group(1)
+                    for c2, leaf in value_cases(e_.S(v_.expr), dict(q_.conds), raw=True):
+                        models = prop_models(c2)
+                        if not models:
+                            continue
+                        ls_atoms = sorted({k for m_ in models for k in m_ if re.search(r"\.leak_status$", k)})
+                        states = {all(m_[k] for k in ls_atoms) for m_ in models} if ls_atoms else {True, False}
+                        present = any(s_.name == want_sym for s_ in leaf.free_symbols)
+                        if True in states:
+                            n_active += 1
+                            if not present:
+                                missing.append(sorted(c2.items()))
+                        if False in states and present:
+                            stale.append(sorted(c2.items()))
+            chk.expect(n_active > 0 and not missing, "R-C08-3", "%s contains the leak-rate term while the leak is active" % bn, loc(f_), found=missing[:2] or "no balance row found")
+            chk.expect(not stale, "R-C08-3", "%s has no leak-rate term while the leak is inactive" % bn, loc(f_),
+                       "without its leak_constraint row (built only for an active leak) the leak-rate variable is free; it must not enter the balance", found=stale[:2])
+        consts = B.constants(repo)
+        dl, sl = consts.get("leak_delta"), consts.get("leak_slope")
+        chk.expect(dl is not None and dl[0] == sp.Rational(1, 10000), "R-C08-1", "leak smoothing band is 0.1 mm of pressure head", loc(B.CONSTANTS), expected="1e-4", found=str(dl[0]) if dl else None)
+        chk.expect(sl is not None and 0 < sl[0] < sp.Rational(1, 1000), "R-C08-1", "leak_slope is a small positive constant", loc(B.CONSTANTS), found=str(sl))
+        # breakpoint agreement
+        rec = []
+        pfn, pp, pex = run_builder_unrolled(repo, PAR, "leak_poly_coeffs_param.build", test_hook=both_entry_hook, call_hook=spline_hook(rec))
+        chk.fn(pfn)
+        if not rec:
+            raise ExtractError("leak_poly_coeffs_param: no cubic_spline call")
+        sub = {cs("leak_discharge_coeff"): Cd}
+        q = sp.Symbol("qq", positive=True)
+        orif = Cd * A * sp.sqrt(g2 * q)
+        for r_ in rec:
+            x1, x2, f1, f2, df1, df2 = [canon(pex.S(v))[0].xreplace(sub) for v in r_]
+            for nm, got, want in (("x1 = 0", x1, 0), ("x2 = delta", x2, delta), ("f1 = 0", f1, 0), ("df1 = leak_slope", df1, slope),
+                                  ("f2 = Cd*A*sqrt(2g*delta)", f2, orif.subs(q, delta)), ("df2 = d/dp Cd*A*sqrt(2g p) at delta", df2, sp.diff(orif, q).subs(q, delta))):
+                chk.expect(is_zero(got - want), "R-C08-1", "leak spline data %s" % nm, loc(pfn), "the smoothing cubic must join the neighbouring branches with value and slope",
+                           expected=str(want), found=str(got))
+        # every way of writing the four coefficient entries (new Param or .value of the existing one), on every path: entry k gets coefficient k
+        n_paths = 0
+        for p_ in pp:
+            if p_.st.raised:
+                continue
+            got = entry_values(p_, r"leak_poly_coeffs_([abcd])")
+            if not got:
+                continue
+            n_paths += 1
+            keys = {key for (_, key, _, _) in got}
+            for k in "abcd":
+                vals = [(val, mode) for (k_, key, val, mode) in got if k_ == k]
+                ok_ = bool(vals) and len(keys) == 1 and all(isinstance(val, Opaque) and re.match(r"^spline\d+\.%s$" % k, val.text) for val, _ in vals)
+                chk.expect(ok_, "R-C08-1", "m.leak_poly_coeffs_%s[<node>] receives spline coefficient %s (%s)" % (k, k, "/".join(sorted({m_ for _, m_ in vals})) or "entry"), loc(pfn),
+                           found=[str(v_) for v_, _ in vals] or "not written; keys %s" % sorted(keys))
+        if not n_paths:
+            raise ExtractError("leak_poly_coeffs_param: no path writes the coefficient entries")
+        B.check_updaters(chk, "R-C08-3", pfn, "leak_poly_coeffs_param", pp, {"leak_discharge_coeff", "leak_area"}, loc(pfn))
+        for pname, attr in (("leak_coeff_param", "leak_discharge_coeff"), ("leak_area_param", "leak_area")):
+            f2_, pths, e2 = B.run_builder(repo, PAR, pname + ".build", test_hook=both_entry_hook)
+            dname = pname[:-len("_param")]
+            seen_ = set()
+            for p_ in pths:
+                if p_.st.raised:
                     continue
-                seen4.add(key)
-                if given[when] is True:
-                    chk.expect(("self." + cn) not in regs, "R-C08-4", "%s.add_leak creates no %s control when %s is None" % (cname, when.split("_")[0], when), loc(af), found=sorted(regs))
-            if any(g is not False for g in given.values()):
+                for (_, key, val, mode) in entry_values(p_, "(%s)" % dname):
+                    txt = val.text if isinstance(val, Opaque) else str(val)
+                    mk = re.match(r"^wn\.get_node\((.+)\)\.%s$" % attr, txt)
+                    ok_ = isinstance(val, Opaque) and txt.endswith("." + attr) and (mk is None or mk.group(1) == key)
+                    seen_.add(mode)
+                    chk.expect(ok_, "R-C08-3", "%s carries node.%s (%s)" % (pname, attr, mode), loc(f2_), found=txt)
+            chk.expect("created" in seen_, "R-C08-3", "%s carries node.%s" % (pname, attr), loc(f2_), found=sorted(seen_))
+            B.check_updaters(chk, "R-C08-3", f2_, pname, pths, {attr}, loc(f2_))
+        chk.floor("R-C08-1", 3 + 2 + 2 + 6 + 4)
+
+    # ---------------------------------------------------------------- R-C08-2 index domains
+    with chk.part("R-C08-2 index domains"):
+        defs, uses = index_domains(repo)
+        if not any(qual == "leak_constraint.build" for _, qual, _, _, _, _ in uses):
+            raise ExtractError("leak_constraint.build: index loop / default index set not understood (no model dictionary subscripted by the loop variable)")
+        n_pairs = 0
+        seen_pairs = set()
+        for rel, qual, fn_, dname, kinds, node in uses:
+            if dname not in defs:
                 continue
-            n_full += 1
-            okw = set(regs) == {"self." + cn for _, _, cn in wanted} and not dup
-            if ("both", okw, str(sorted(regs))) in seen4:
+            jg = junction_guarded(node, fn_)
+            if jg == "junction":
+                kinds = kinds & {"junction"}
+            elif jg == "other":
+                kinds = kinds - {"junction"}
+            key = (qual, dname, jg)
+            if key in seen_pairs:
                 continue
-            seen4.add(("both", okw, str(sorted(regs))))
-            chk.expect(okw, "R-C08-4", "%s.add_leak creates a start and an end control" % cname, loc(af), found=(sorted(regs), dup))
-            for when, val, cn in wanted:
-                tb, cb, shown = regs.get("self." + cn, ({}, {}, None))
-                chk.expect(bool(tb), "R-C08-4", "%s.add_leak registers the %s control under %s" % (cname, when, cn), loc(af), found=shown if shown is not None else sorted(regs))
-                chk.expect(cb.get("target_obj") == Opaque("self") and cb.get("attribute") == "leak_status" and cb.get("value") is val, "R-C08-4",
-                           "%s.add_leak: %s control sets leak_status %s on this node" % (cname, when, val), loc(af), found=cb or shown)
-                fl = tb.get("time_flag")
-                okt = tb.get("wnm") == Opaque("wn") and tb.get("run_at_time") == Opaque(when) and isinstance(fl, str) and fl.upper() == "SIM_TIME" and tb.get("daily_flag") is False
-                chk.expect(okt, "R-C08-4", "%s.add_leak: %s control is a non-repeating simulation-time control at %s" % (cname, when, when), loc(af), found=tb or shown)
-                if isinstance(fl, str):
-                    flags.add(fl)
-        if not n_full:
-            raise ExtractError("%s.add_leak: no path with both times given" % cname)
-        # remove_leak undoes everything: on every path the LAST value stored to the flags is False and both controls are discarded
-        n_rm = 0
-        seen5 = set()
-        for o in UnrollExec().run(rf):
-            if o.raised:
-                continue
-            n_rm += 1
-            last = {}
-            for e in o.events:
-                if e[0] == "store" and e[1].startswith("self."):
-                    last[e[1]] = e[2]
-            disc = set()
-            for e in o.events:
-                if e[0] == "call" and e[2][0].split(".")[-1] in ("_discard_control", "remove_control") and e[2][0].split(".")[0] == "wn":
-                    arg = (e[2][1] or [e[2][2].get("name")])[0]
-                    disc.add(arg.text if isinstance(arg, Opaque) else repr(arg))
-            sig = (str(sorted((k, str(v)) for k, v in last.items())), str(sorted(disc)))
-            if sig in seen5:
-                continue
-            seen5.add(sig)
-            shown = {k: str(v) for k, v in sorted(last.items())}
-            chk.expect(last.get("self._leak") is False, "R-C08-5", "%s.remove_leak clears the leak flag" % cname, loc(rf), found=shown)
-            chk.expect({"self._leak_start_control_name", "self._leak_end_control_name"} <= disc, "R-C08-5", "%s.remove_leak discards both leak controls" % cname, loc(rf), found=sorted(disc))
-            # the switch the simulator reads: ControlAction maps 'leak_status' -> '_leak_status'; removing the controls must also switch it off
-            chk.expect(last.get("self._leak_status") is False, "R-C08-5", "%s.remove_leak switches the run-time leak status off" % cname, loc(rf),
-                       "the start control sets _leak_status True; after remove_leak nothing would ever clear it and the constraint builders keep the leak term (leak keeps discharging)",
-                       expected="self._leak_status = False", found=shown)
-        if not n_rm:
-            raise ExtractError("%s.remove_leak: no path returns" % cname)
-    # the control factory, evaluated for the flag add_leak passes: the condition is `simulation time == run_at_time`, repeating only on request
-    stc = repo.func(CTRL, "SimTimeCondition.__init__")
-    cti = repo.func(CTRL, "Control.__init__")
-    for fl in sorted(flags) or ["SIM_TIME"]:
-        n_tc = 0
-        for o in SymExec(call_hook=str_method_hook).run(tcf, env={"time_flag": fl}):
-            if o.raised:
-                continue
-            n_tc += 1
-            ce = event_of(o, o.ret)
-            cb = bind_call(cti, ce) if ce is not None and ce[2][0].split(".")[-1] in ("Control", "cls") else {}
-            se = event_of(o, cb.get("condition"))
-            sb = bind_call(stc, se) if se is not None and se[2][0].split(".")[-1] == "SimTimeCondition" else {}
-            rel = sb.get("relation")
-            okc = sb.get("threshold") == Opaque("run_at_time") and sb.get("repeat") == Opaque("daily_flag") and sb.get("model") == Opaque("wnm") \
-                and isinstance(rel, Opaque) and rel.text == "Comparison.eq" and cb.get("then_action") == Opaque("control_action")
-            chk.expect(okc, "R-C08-4", "Control._time_control(SIM_TIME) builds SimTimeCondition(eq, run_at_time, repeat=daily_flag)", loc(tcf),
-                       "evaluated with time_flag=%r" % fl, found=(ce[1] if ce is not None else o.ret))
-        if not n_tc:
-            chk.bad("R-C08-4", "Control._time_control(SIM_TIME) builds SimTimeCondition(eq, run_at_time, repeat=daily_flag)", loc(tcf), "raises for time_flag=%r" % fl)
-    from ._shared import control_type_table
-    table_, default_, ci, init_ok = control_type_table(repo)
-    tkey = [k for k in table_ if "SimTimeCondition" in k]
-    chk.expect(init_ok and bool(tkey) and table_[tkey[0]] == "_ControlType.presolve", "R-C08-4", "time-conditioned controls are pre-solve (back-tracked to their instant)", loc(ci), found=table_)
-    cai, pvals = private_attribute_of(repo, "leak_status")
-    chk.fn(cai)
-    chk.expect(pvals == {"_leak_status"}, "R-C08-4", "ControlAction maps leak_status to the run-time field _leak_status", loc(cai), found=sorted(map(str, pvals)))
-    ls = repo.func(BASE, "Node.leak_status", kind="getter")
-    rets = {(o.ret.text if isinstance(o.ret, Opaque) else o.ret) for o in SymExec().run(ls) if not o.raised}
-    chk.expect(rets == {"self._leak_status"}, "R-C08-4", "Node.leak_status reads _leak_status", loc(ls), found=sorted(map(str, rets)))
-    chk.floor("R-C08-4", 2 * 7 + 4)
-    chk.floor("R-C08-5", 6)
+            seen_pairs.add(key)
+            n_pairs += 1
+            missing = kinds - defs[dname]
+            chk.expect(not missing, "R-C08-2", "%s subscripts m.%s with its index variable only for element kinds m.%s is built for" % (qual, dname, dname), loc(rel, node),
+                       "a model dictionary looked up with a name it was never built for raises KeyError inside the simulation (a leak on a tank needs tank entries)",
+                       expected="m.%s covers %s" % (dname, sorted(kinds)), found="m.%s is built for %s only" % (dname, sorted(defs[dname])))
+        chk.sample({"rule": "R-C08-2", "dict_domains": {k: sorted(v) for k, v in sorted(defs.items())}})
+        chk.floor("R-C08-2", 30)
+
+    # ---------------------------------------------------------------- R-C08-4 window / R-C08-5 inverse pair
+    with chk.part("R-C08-4 window / R-C08-5 inverse pair"):
+        tcf = repo.func(CTRL, "Control._time_control")
+        cai_ = repo.func(CTRL, "ControlAction.__init__")
+        addf = repo.func(MODEL, "WaterNetworkModel.add_control")
+        chk.fn(tcf, addf)
+        flags = set()
+        for cname in ("Junction", "Tank"):
+            af = repo.func(ELEM, "%s.add_leak" % cname)
+            rf = repo.func(ELEM, "%s.remove_leak" % cname)
+            chk.fn(af, rf)
+            wanted = (("start_time", True, "_leak_start_control_name"), ("end_time", False, "_leak_end_control_name"))
+            n_full = 0
+            seen4 = set()
+            for o in UnrollExec().run(af):
+                if o.raised:
+                    continue
+                models = prop_models(dict(o.conds))
+                if not models:
+                    continue
+                # controls registered on this path, keyed by the name they are registered under (order and temporaries do not matter)
+                regs, dup = {}, []
+                for e in call_events(o, "add_control"):
+                    ab = bind_call(addf, e)
+                    nm = ab.get("name")
+                    nm = nm.text if isinstance(nm, Opaque) else repr(nm)
+                    if nm in regs:
+                        dup.append(nm)
+                    te = event_of(o, ab.get("control_object"))
+                    tb = bind_call(tcf, te) if te is not None and te[2][0].split(".")[-1] == "_time_control" else {}
+                    ae = event_of(o, tb.get("control_action"))
+                    cb = bind_call(cai_, ae) if ae is not None and ae[2][0].split(".")[-1] == "ControlAction" else {}
+                    regs[nm] = (tb, cb, te[1] if te is not None else ab.get("control_object"))
+                given = {when: prop_forced("%s is None" % when, models) for when, _, _ in wanted}
+                # a control exists exactly when its time is given
+                for when, val, cn in wanted:
+                    if given[when] is None:
+                        continue
+                    key = (when, given[when], ("self." + cn) in regs)
+                    if key in seen4:
+                        continue
+                    seen4.add(key)
+                    if given[when] is True:
+                        chk.expect(("self." + cn) not in regs, "R-C08-4", "%s.add_leak creates no %s control when %s is None" % (cname, when.split("_")[0], when), loc(af), found=sorted(regs))
+                if any(g is not False for g in given.values()):
+                    continue
+                n_full += 1
+                okw = set(regs) == {"self." + cn for _, _, cn in wanted} and not dup
+                if ("both", okw, str(sorted(regs))) in seen4:
+                    continue
+                seen4.add(("both", okw, str(sorted(regs))))
+                chk.expect(okw, "R-C08-4", "%s.add_leak creates a start and an end control" % cname, loc(af), found=(sorted(regs), dup))
+                for when, val, cn in wanted:
+                    tb, cb, shown = regs.get("self." + cn, ({}, {}, None))
+                    chk.expect(bool(tb), "R-C08-4", "%s.add_leak registers the %s control under %s" % (cname, when, cn), loc(af), found=shown if shown is not None else sorted(regs))
+                    chk.expect(cb.get("target_obj") == Opaque("self") and cb.get("attribute") == "leak_status" and cb.get("value") is val, "R-C08-4",
+                               "%s.add_leak: %s control sets leak_status %s on this node" % (cname, when, val), loc(af), found=cb or shown)
+                    fl = tb.get("time_flag")
+                    okt = tb.get("wnm") == Opaque("wn") and tb.get("run_at_time") == Opaque(when) and isinstance(fl, str) and fl.upper() == "SIM_TIME" and tb.get("daily_flag") is False
+                    chk.expect(okt, "R-C08-4", "%s.add_leak: %s control is a non-repeating simulation-time control at %s" % (cname, when, when), loc(af), found=tb or shown)
+                    if isinstance(fl, str):
+                        flags.add(fl)
+            if not n_full:
+                raise ExtractError("%s.add_leak: no path with both times given" % cname)
+            # remove_leak undoes everything: on every path the LAST value stored to the flags is False and both controls are discarded
+            n_rm = 0
+            seen5 = set()
+            for o in UnrollExec().run(rf):
+                if o.raised:
+                    continue
+                n_rm += 1
+                last = {}
+                for e in o.events:
+                    if e[0] == "store" and e[1].startswith("self."):
+                        last[e[1]] = e[2]
+                disc = set()
+                for e in o.events:
+                    if e[0] == "call" and e[2][0].split(".")[-1] in ("_discard_control", "remove_control") and e[2][0].split(".")[0] == "wn":
+                        arg = (e[2][1] or [e[2][2].get("name")])[0]
+                        disc.add(arg.text if isinstance(arg, Opaque) else repr(arg))
+                sig = (str(sorted((k, str(v)) for k, v in last.items())), str(sorted(disc)))
+                if sig in seen5:
+                    continue
+                seen5.add(sig)
+                shown = {k: str(v) for k, v in sorted(last.items())}
+                chk.expect(last.get("self._leak") is False, "R-C08-5", "%s.remove_leak clears the leak flag" % cname, loc(rf), found=shown)
+                chk.expect({"self._leak_start_control_name", "self._leak_end_control_name"} <= disc, "R-C08-5", "%s.remove_leak discards both leak controls" % cname, loc(rf), found=sorted(disc))
+                # the switch the simulator reads: ControlAction maps 'leak_status' -> '_leak_status'; removing the controls must also switch it off
+                chk.expect(last.get("self._leak_status") is False, "R-C08-5", "%s.remove_leak switches the run-time leak status off" % cname, loc(rf),
+                           "the start control sets _leak_status True; after remove_leak nothing would ever clear it and the constraint builders keep the leak term (leak keeps discharging)",
+                           expected="self._leak_status = False", found=shown)
+            if not n_rm:
+                raise ExtractError("%s.remove_leak: no path returns" % cname)
+        # the control factory, evaluated for the flag add_leak passes: the condition is `simulation time == run_at_time`, repeating only on request
+        stc = repo.func(CTRL, "SimTimeCondition.__init__")
+        cti = repo.func(CTRL, "Control.__init__")
+        for fl in sorted(flags) or ["SIM_TIME"]:
+            n_tc = 0
+            for o in SymExec(call_hook=str_method_hook).run(tcf, env={"time_flag": fl}):
+                if o.raised:
+                    continue
+                n_tc += 1
+                ce = event_of(o, o.ret)
+                cb = bind_call(cti, ce) if ce is not None and ce[2][0].split(".")[-1] in ("Control", "cls") else {}
+                se = event_of(o, cb.get("condition"))
+                sb = bind_call(stc, se) if se is not None and se[2][0].split(".")[-1] == "SimTimeCondition" else {}
+                rel = sb.get("relation")
+                okc = sb.get("threshold") == Opaque("run_at_time") and sb.get("repeat") == Opaque("daily_flag") and sb.get("model") == Opaque("wnm") \
+                    and isinstance(rel, Opaque) and rel.text == "Comparison.eq" and cb.get("then_action") == Opaque("control_action")
+                chk.expect(okc, "R-C08-4", "Control._time_control(SIM_TIME) builds SimTimeCondition(eq, run_at_time, repeat=daily_flag)", loc(tcf),
+                           "evaluated with time_flag=%r" % fl, found=(ce[1] if ce is not None else o.ret))
+            if not n_tc:
+                chk.bad("R-C08-4", "Control._time_control(SIM_TIME) builds SimTimeCondition(eq, run_at_time, repeat=daily_flag)", loc(tcf), "raises for time_flag=%r" % fl)
+        from ._shared import control_type_table
+        table_, default_, ci, init_ok = control_type_table(repo)
+        tkey = [k for k in table_ if "SimTimeCondition" in k]
+        chk.expect(init_ok and bool(tkey) and table_[tkey[0]] == "_ControlType.presolve", "R-C08-4", "time-conditioned controls are pre-solve (back-tracked to their instant)", loc(ci), found=table_)
+        cai, pvals = private_attribute_of(repo, "leak_status")
+        chk.fn(cai)
+        chk.expect(pvals == {"_leak_status"}, "R-C08-4", "ControlAction maps leak_status to the run-time field _leak_status", loc(cai), found=sorted(map(str, pvals)))
+        ls = repo.func(BASE, "Node.leak_status", kind="getter")
+        rets = {(o.ret.text if isinstance(o.ret, Opaque) else o.ret) for o in SymExec().run(ls) if not o.raised}
+        chk.expect(rets == {"self._leak_status"}, "R-C08-4", "Node.leak_status reads _leak_status", loc(ls), found=sorted(map(str, rets)))
+        chk.floor("R-C08-4", 2 * 7 + 4)
+        chk.floor("R-C08-5", 6)
 
     # ---------------------------------------------------------------- R-C08-8 a refused add_leak changes nothing (both siblings)
-    # the registry refuses a control name that exists (add_control raises); a second add_leak on a node whose leak is in force must be refused
-    # BEFORE a field of the node or the registry is touched: at every point of every path at which the call can still be refused, nothing has
-    # been changed yet -- or the refusal was excluded by a membership test on that very name taken earlier on the path
-    for cname in ("Junction", "Tank"):
-        af = repo.func(ELEM, "%s.add_leak" % cname)
-        seen8 = set()
-        n_add = 0
-        for o in UnrollExec().run(af):
-            for kind_, what, before, guarded in refusal_points(o, addf):
-                if kind_ == "add_control":
-                    n_add += 1
-                ok_ = guarded or not before
-                key = (kind_, what, ok_, tuple(before) if not ok_ else ())
-                if key in seen8:
-                    continue
-                seen8.add(key)
-                if kind_ == "raise":
-                    chk.expect(ok_, "R-C08-8", "%s.add_leak has changed nothing when it refuses the call itself" % cname, loc(af),
-                               "%s is reached on path %s after the node / the registry was already changed" % (what[:80], o.label()), expected="no effect before the raise", found=before[:4])
-                else:
-                    chk.expect(ok_, "R-C08-8", "%s.add_leak: registering %s cannot be refused once something was changed" % (cname, what), loc(af),
-                               "wn.add_control raises when the name exists; on path %s the name was not tested against the registry first, so a refused second add_leak "
-                               "has already rewritten the leak in force (or registered the other control)" % o.label(),
-                               expected="`%s in wn.control_name_list` excluded before any change, or nothing changed before the call" % what, found=before[:4])
-        if not n_add:
-            raise ExtractError("%s.add_leak: no wn.add_control call found" % cname)
-    chk.floor("R-C08-8", 4)
+    with chk.part("R-C08-8 a refused add_leak changes nothing (both siblings)"):
+        # the registry refuses a control name that exists (add_control raises); a second add_leak on a node whose leak is in force must be refused
+        # BEFORE a field of the node or the registry is touched: at every point of every path at which the call can still be refused, nothing has
+        # been changed yet -- or the refusal was excluded by a membership test on that very name taken earlier on the path
+        for cname in ("Junction", "Tank"):
+            af = repo.func(ELEM, "%s.add_leak" % cname)
+            seen8 = set()
+            n_add = 0
+            for o in UnrollExec().run(af):
+                for kind_, what, before, guarded in refusal_points(o, addf):
+                    if kind_ == "add_control":
+                        n_add += 1
+                    ok_ = guarded or not before
+                    key = (kind_, what, ok_, tuple(before) if not ok_ else ())
+                    if key in seen8:
+                        continue
+                    seen8.add(key)
+                    if kind_ == "raise":
+                        chk.expect(ok_, "R-C08-8", "%s.add_leak has changed nothing when it refuses the call itself" % cname, loc(af),
+                                   "%s is reached on path %s after the node / the registry was already changed" % (what[:80], o.label()), expected="no effect before the raise", found=before[:4])
+                    else:
+                        chk.expect(ok_, "R-C08-8", "%s.add_leak: registering %s cannot be refused once something was changed" % (cname, what), loc(af),
+                                   "wn.add_control raises when the name exists; on path %s the name was not tested against the registry first, so a refused second add_leak "
+                                   "has already rewritten the leak in force (or registered the other control)" % o.label(),
+                                   expected="`%s in wn.control_name_list` excluded before any change, or nothing changed before the call" % what, found=before[:4])
+            if not n_add:
+                raise ExtractError("%s.add_leak: no wn.add_control call found" % cname)
+        chk.floor("R-C08-8", 4)
 
     # ---------------------------------------------------------------- R-C08-9 remove_leak removes the leak controls whatever they are called
-    # simple-control names are not stored by to_dict (from_dict re-registers them as 'control N'); convert_controls_to_rules re-registers
-    # '<name>_Rule': a control that does nothing but switch THIS node's leak must not survive remove_leak, a control that does anything else must
-    for cname in ("Junction", "Tank"):
-        rf = repo.func(ELEM, "%s.remove_leak" % cname)
-        err, survived, keep, fields = remove_leak_on_mock_model(repo, cname)
-        chk.expect(err is None, "R-C08-9", "%s.remove_leak completes on a model with renamed leak controls" % cname, loc(rf), found=err)
-        if err is not None:
-            continue
-        for label, alive in sorted(survived.items()):
-            if keep[label]:
-                chk.expect(alive, "R-C08-9", "%s.remove_leak keeps the %s" % (cname, label), loc(rf), "only controls that do nothing but switch this node's leak belong to the leak")
-            else:
-                chk.expect(not alive, "R-C08-9", "%s.remove_leak discards the %s" % (cname, label), loc(rf),
-                           "a surviving start control switches the removed leak back on at its start time; registered names are not preserved by from_dict / convert_controls_to_rules",
-                           expected="no control whose actions all target (this node, 'leak_status') is left in the registry", found="still registered")
-        chk.expect(fields.get("_leak") is False and fields.get("_leak_status") is False, "R-C08-9", "%s.remove_leak leaves the node without a leak" % cname, loc(rf), found=fields)
-    chk.floor("R-C08-9", 2 * 11)
+    with chk.part("R-C08-9 remove_leak removes the leak controls whatever they are called"):
+        # simple-control names are not stored by to_dict (from_dict re-registers them as 'control N'); convert_controls_to_rules re-registers
+        # '<name>_Rule': a control that does nothing but switch THIS node's leak must not survive remove_leak, a control that does anything else must
+        for cname in ("Junction", "Tank"):
+            rf = repo.func(ELEM, "%s.remove_leak" % cname)
+            err, survived, keep, fields = remove_leak_on_mock_model(repo, cname)
+            chk.expect(err is None, "R-C08-9", "%s.remove_leak completes on a model with renamed leak controls" % cname, loc(rf), found=err)
+            if err is not None:
+                continue
+            for label, alive in sorted(survived.items()):
+                if keep[label]:
+                    chk.expect(alive, "R-C08-9", "%s.remove_leak keeps the %s" % (cname, label), loc(rf), "only controls that do nothing but switch this node's leak belong to the leak")
+                else:
+                    chk.expect(not alive, "R-C08-9", "%s.remove_leak discards the %s" % (cname, label), loc(rf),
+                               "a surviving start control switches the removed leak back on at its start time; registered names are not preserved by from_dict / convert_controls_to_rules",
+                               expected="no control whose actions all target (this node, 'leak_status') is left in the registry", found="still registered")
+            chk.expect(fields.get("_leak") is False and fields.get("_leak_status") is False, "R-C08-9", "%s.remove_leak leaves the node without a leak" % cname, loc(rf), found=fields)
+        chk.floor("R-C08-9", 2 * 11)
 
     # ---------------------------------------------------------------- R-C08-6 reported leak demand
-    # the leak row exists only for `leak_status and not _is_isolated` (R-C08-1); wherever it does not exist the reported leak demand must be
-    # the constant 0 -- on EVERY path through store_results_in_network (last store wins), not the stale value of the leak-rate variable
-    sfn, rows = leak_demand_cases(repo)
-    chk.fn(sfn)
-    seen6 = set()
-    for kind, kv, nv, conds, got in rows:
-        models = prop_models(conds)
-        if not models:
-            continue                              # contradictory tests: no execution takes this path
-        iso = prop_forced(nv + "._is_isolated", models) if kind == "junction" else False
-        ls = prop_forced(nv + ".leak_status", models)
-        if ls is None:
-            ls = prop_forced(nv + "._leak_status", models)      # the field the read-only property returns (R-C08-4)
-        if iso is not False:
-            case, want = "isolated", 0           # a path an isolated junction may take
-        elif ls is True:
-            case, want = "connected, leak active", "m.leak_rate[%s].value" % kv
-        elif ls is False:
-            case, want = "connected, leak inactive", 0
-        elif not any("leak_status" in k for k in conds) and "leak_status" not in str(got):
-            # nothing on this path looks at the switch: one value for the active and the inactive leak
-            chk.bad("R-C08-6", "reported leak demand of a connected %s depends on leak_status" % kind, loc(sfn),
-                    "store_results_in_network, path %s stores %s whether or not the leak is active" % (sorted(conds.items()), got), expected="m.leak_rate[%s].value while active, 0 otherwise" % kv, found=got)
-            continue
-        else:
-            raise ExtractError("store_results_in_network: cannot tell whether the leak is active on path %s" % sorted(conds.items()))
-        key = (kind, case, str(got))
-        if key in seen6:
-            continue
-        seen6.add(key)
-        chk.expect(got == want, "R-C08-6", "reported leak demand of a %s [%s] is %s on every path" % (kind, case, want), loc(sfn),
-                   "store_results_in_network, path %s: the last value stored to %s._leak_demand" % (sorted(conds.items()), nv), expected=want, found=got)
-    chk.floor("R-C08-6", 5)
+    with chk.part("R-C08-6 reported leak demand"):
+        # the leak row exists only for `leak_status and not _is_isolated` (R-C08-1); wherever it does not exist the reported leak demand must be
+        # the constant 0 -- on EVERY path through store_results_in_network (last store wins), not the stale value of the leak-rate variable
+        sfn, rows = leak_demand_cases(repo)
+        chk.fn(sfn)
+        seen6 = set()
+        for kind, kv, nv, conds, got in rows:
+            models = prop_models(conds)
+            if not models:
+                continue                              # contradictory tests: no execution takes this path
+            iso = prop_forced(nv + "._is_isolated", models) if kind == "junction" else False
+            ls = prop_forced(nv + ".leak_status", models)
+            if ls is None:
+                ls = prop_forced(nv + "._leak_status", models)      # the field the read-only property returns (R-C08-4)
+            if iso is not False:
+                case, want = "isolated", 0           # a path an isolated junction may take
+            elif ls is True:
+                case, want = "connected, leak active", "m.leak_rate[%s].value" % kv
+            elif ls is False:
+                case, want = "connected, leak inactive", 0
+            elif not any("leak_status" in k for k in conds) and "leak_status" not in str(got):
+                # nothing on this path looks at the switch: one value for the active and the inactive leak
+                chk.bad("R-C08-6", "reported leak demand of a connected %s depends on leak_status" % kind, loc(sfn),
+                        "store_results_in_network, path %s stores %s whether or not the leak is active" % (sorted(conds.items()), got), expected="m.leak_rate[%s].value while active, 0 otherwise" % kv, found=got)
+                continue
+            else:
+                raise ExtractError("store_results_in_network: cannot tell whether the leak is active on path %s" % sorted(conds.items()))
+            key = (kind, case, str(got))
+            if key in seen6:
+                continue
+            seen6.add(key)
+            chk.expect(got == want, "R-C08-6", "reported leak demand of a %s [%s] is %s on every path" % (kind, case, want), loc(sfn),
+                       "store_results_in_network, path %s: the last value stored to %s._leak_demand" % (sorted(conds.items()), nv), expected=want, found=got)
+        chk.floor("R-C08-6", 5)
 
     # ---------------------------------------------------------------- R-C08-7 the leak window starts over with every reset
-    # "active exactly from start_time until end_time": a run leaves the switch on when the leak is still open at the end; reset_initial_values
-    # must switch it off for every node kind that can carry a leak, or a rerun leaks from t = 0
-    from .c11 import reset_table
-    rsf, rtab = reset_table(repo)
-    chk.fn(rsf)
-    leak_kinds = [cn for cn in ("Junction", "Tank", "Reservoir") if any(isinstance(n, ast.FunctionDef) and n.name == "add_leak" for n in repo.cls(ELEM, cn).body)]
-    for cn in leak_kinds:
-        chk.expect(rtab.get(cn, {}).get("_leak_status") == "False", "R-C08-7", "reset_initial_values switches the leak of every %s off" % cn, loc(rsf),
-                   "%s.add_leak exists, so a run can end with _leak_status True; without the reset the next run discharges before start_time" % cn,
-                   expected="%s._leak_status = False" % cn, found=rtab.get(cn, {}).get("_leak_status"))
-    chk.floor("R-C08-7", 2)
+    with chk.part("R-C08-7 the leak window starts over with every reset"):
+        # "active exactly from start_time until end_time": a run leaves the switch on when the leak is still open at the end; reset_initial_values
+        # must switch it off for every node kind that can carry a leak, or a rerun leaks from t = 0
+        from .c11 import reset_table
+        rsf, rtab = reset_table(repo)
+        chk.fn(rsf)
+        leak_kinds = [cn for cn in ("Junction", "Tank", "Reservoir") if any(isinstance(n, ast.FunctionDef) and n.name == "add_leak" for n in repo.cls(ELEM, cn).body)]
+        for cn in leak_kinds:
+            chk.expect(rtab.get(cn, {}).get("_leak_status") == "False", "R-C08-7", "reset_initial_values switches the leak of every %s off" % cn, loc(rsf),
+                       "%s.add_leak exists, so a run can end with _leak_status True; without the reset the next run discharges before start_time" % cn,
+                       expected="%s._leak_status = False" % cn, found=rtab.get(cn, {}).get("_leak_status"))
+        chk.floor("R-C08-7", 2)
 
     # ---------------------------------------------------------------- R-C08-10 every node's leak rows are built from that node's own data
-    B.check_loop_independence(repo, chk, "R-C08-10", [(CON, "leak_constraint.build"), (PAR, "leak_coeff_param.build"), (PAR, "leak_area_param.build"),
-                                                     (PAR, "leak_poly_coeffs_param.build"), (VAR, "leak_rate_var")], "node")
-    chk.floor("R-C08-10", 5)
+    with chk.part("R-C08-10 every node's leak rows are built from that node's own data"):
+        B.check_loop_independence(repo, chk, "R-C08-10", [(CON, "leak_constraint.build"), (PAR, "leak_coeff_param.build"), (PAR, "leak_area_param.build"),
+                                                         (PAR, "leak_poly_coeffs_param.build"), (VAR, "leak_rate_var")], "node")
+        chk.floor("R-C08-10", 5)
 
 
 WITNESSES = [
